@@ -511,9 +511,9 @@ def run(ctx):
     ctx.rule("C19.dir", "directory of the created file is ensured", floor=2)
     ctx.rule("C19.mode", "text/binary mode agreement of config files", floor=3)
     ctx.assume("os.replace is atomic on POSIX; JSON / key=value value round trip is not decided")
-    rule_maps(ctx)
-    rule_ctor(ctx)
-    rule_ext(ctx)
-    rule_detect(ctx)
-    rule_atomic_dir(ctx)
-    rule_mode(ctx)
+    ctx.guarded("C19.maps", rule_maps, ctx)
+    ctx.guarded("C19.ctor", rule_ctor, ctx)
+    ctx.guarded("C19.ext", rule_ext, ctx)
+    ctx.guarded("C19.detect", rule_detect, ctx)
+    ctx.guarded("C19.atomic_dir", rule_atomic_dir, ctx)
+    ctx.guarded("C19.mode", rule_mode, ctx)
